@@ -286,8 +286,9 @@ class Cmp:
         if math.isnan(a) and math.isnan(b):
             return
         if math.isnan(a) != math.isnan(b):
-            # "no power" at an unsupplied element is reported as 0 or NaN (cf. C07)
-            if kind in ("p", "i", "l") and (a == 0 or b == 0):
+            # "no power" at an unsupplied element is reported as 0 (or numerical noise around 0) or NaN (cf. C07)
+            other = b if math.isnan(a) else a
+            if kind in ("p", "i", "l") and abs(other) <= {"p": self.ptol, "i": 1e-9, "l": 1e-6}[kind]:
                 return
             self.add(cls + "/nan-pattern", what=what, before=a, after=b)
             return
